@@ -26,12 +26,40 @@ def run(tier):
     for k, v in list(stats2.items()) + list(stats3.items()): stats[k] += v
     # regression corpus: programs that once failed (their fix is recorded in known_findings.txt)
     import os
-    regs = [("loop-alloca", "findings/C01-loop-alloca.pn", "exit=0 out=sum = 4498500\\n")]
+    regs = [("loop-alloca", "findings/C01-loop-alloca.pn", "exit=0 out=sum = 4498500\\n"),
+            ("array-member-element", "findings/C01-array-member-element.pn", "exit=5 out="),
+            ("call-convention", "findings/C03-call-convention.pn", "exit=3 out="),
+            ("constant-named-main", "findings/C03-constant-named-main.pn", "exit=7 out=")]
     rr = C.run_harness("exec", [(rn, open(os.path.join(C.VERIF, f)).read()) for rn, f, _ in regs], ck.work + "/regress", timeout=600)
     for rn, f, want in regs:
         got = rr.get(rn, ["missing"])
         if len(got) < 2 or got[1] != want:
             ck.violation("regression:" + rn, "%s no longer behaves as its source prescribes: %s (expected %s)" % (f, got[:2], want), open(os.path.join(C.VERIF, f)).read())
+    # "parenthesisation of the source never changes the result": every printable kind of value printed as
+    # `x`, `(x)` and `((x))`, passed as `f(x)` / `f((x))`, assigned, returned and compared with and without parentheses
+    kinds = [("i8", "-7"), ("u8", "200"), ("i32", "-123456"), ("u64", "18446744073709551615"), ("i128", "-170141183460469231731687303715884105728"), ("u128", "5"),
+             ("usize", "9"), ("bool", "true"), ("char8", "'q'"), ("[4]char8", "['a', 'b', 'c', '\\0']")]   # (printing arrays and structures: C02's D15)
+    pcases = []
+    for ki, (t, v) in enumerate(kinds):
+        for wi, wrap in enumerate(("%s", "(%s)", "((%s))")):
+            x = wrap % "x"
+            body = "\tvar x: %s = %s;\n" % (t, v) + ("\tprint!(\"[\", %s, \"]\\n\");\n" % x if not t.startswith("[") else "")
+            if t == "[4]char8":
+                body += "\tvar e: &[..]char8 = &x;\n\tprint!(\"<\", %s, \">\\n\");\n" % (wrap % "e")
+            if not t.startswith("["):
+                body += "\tvar y: %s = %s;\n\tvar z: %s = idt(%s);\n\tprint!(y, \" \", z, \"\\n\");\n\tif %s == %s\n\t{\n\t\tprint!(\"same\\n\");\n\t}\n" % (t, x, t, x, x, wrap % "y")
+                pre = "fn idt(a: %s) -> %s\n{\n\treturn: %s\n}\n" % (t, t, wrap % "a")
+            else: pre = ""
+            pcases.append(("pp%d.%d" % (ki, wi), pre + "struct P\n{\n\ta: i32,\n\tb: u8,\n}\nfn main() -> u8\n{\n%s\tvar p = P { a: 1, b: 2 };\n\tprint!(%s, \"\\n\");\n\treturn: 0\n}\n" % (body, wrap % "p.a")))
+    pimpl = C.run_harness("exec", pcases, ck.work + "/parens", timeout=600)
+    pbad = 0
+    for ki in range(len(kinds)):
+        outs = [tuple(pimpl.get("pp%d.%d" % (ki, wi), ["missing"])[:2]) for wi in range(3)]
+        if not outs[0][0].startswith("ok") or len(set(outs)) != 1:
+            pbad += 1
+            ck.violation("parentheses-change-result" if outs[0][0].startswith("ok") else "valid-rejected:" + outs[0][0].split(" ")[0],
+                         "the same program with x, (x) and ((x)) gives %s" % (outs,), dict(pcases)["pp%d.1" % ki])
+    ck.log("parenthesisation: %d kinds of values x 3 spellings, %d problems" % (len(kinds), pbad))
     from . import c12
     c12.check_leaks(ck)
     from .. import cfgstream
